@@ -126,4 +126,31 @@ theorem delivered_fresh (gs : List GEx) : delivered .fresh gs = gs.map (fun g =>
   · simp [List.getElem?_eq_none (by simpa using Nat.le_of_not_lt h : (List.range gs.length).length ≤ i),
       List.getElem?_eq_none (Nat.le_of_not_lt h)]
 
+/-! Messages: empty versus absent. -/
+
+theorem throughWire_plain {α : Type} (isEmpty : α → Bool) (zero v : α) :
+    throughWire {} isEmpty zero v = v := by
+  simp [throughWire]
+
+/-- With no `omitempty` / `-` anywhere a RemoteQueryResult comes back exactly, nil-ness of
+    every slice, ByteMap and pointer included. -/
+theorem RQR.roundTrip_plain (m : RQR) : m.roundTrip {} = m := by
+  cases m
+  simp [RQR.roundTrip, throughWire]
+
+/-- The kind the leader infers is the kind the follower sent, provided the tags of the
+    discriminating fields do not drop them: `Fields` and `Key` neither `omitempty` nor `-`
+    (an empty field list / a key with zero dims must stay non-nil), `Row` and `EndOfResults`
+    not `-` (`omitempty` on a pointer or a bool only drops nil / false, which decode as nil /
+    false anyway).  Holds for EVERY message the follower sends, empty-key rows included. -/
+theorem leaderKind_roundTrip (t : RQRTags)
+    (hf : t.fields.omitEmpty = false ∧ t.fields.skip = false)
+    (hk : t.key.omitEmpty = false ∧ t.key.skip = false)
+    (hr : t.row.skip = false) (he : t.endOfResults.skip = false)
+    (s : Sent) (unflat : Bool)
+    (hq : match s with | .unflatRow _ _ => unflat = true | .flatRow _ => unflat = false | _ => True) :
+    leaderKind s.first unflat (s.msg.roundTrip t) = s.kind := by
+  cases s <;>
+    simp_all [leaderKind, Sent.first, Sent.msg, Sent.kind, RQR.roundTrip, throughWire, emptyOpt]
+
 end Zeno
